@@ -24,8 +24,8 @@ FILE_CHECKS = {
     "http_accessor.py": ["C14"],
     "mesh.py": ["C17"],
     "precomputed_io.py": ["C03"],
-    "sharded_base.py": ["C09", "C04", "C05"],
-    "sharded_file_accessor.py": ["C04", "C05", "C18"],
+    "sharded_base.py": ["C09", "C04", "C05", "C14"],
+    "sharded_file_accessor.py": ["C04", "C05", "C18", "C14"],
     "sharded_http_accessor.py": ["C14"],
     "transform.py": ["C16"],
     "volume_reader.py": ["C01", "C16"],
